@@ -388,9 +388,94 @@ class C03(Prop):
             src += 'rule m%d { condition: "%s" matches %s }\n' % (i, lit, retext)
         return {"node": node, "ci": ci, "da": da, "mods": mods, "src": src, "inputs": inputs, "subjects": subjects}
 
+    def gen_nul_family(self, rng):
+        """`ascii wide` strings whose alternation has a branch that is the widened form of another branch
+        (NUL-interleaved literal): an ascii literal is byte-equal to a wide literal, which matters for the
+        ascii / wide split of the literal list (`literal_index >= len / 2`)."""
+        k = rng.range(2, 3)
+        word = [rng.choice([0x61, 0x62, 0x63, 0x41]) for _ in range(k)]
+        wide_word = []
+        for b in word:
+            wide_word += [b, 0]
+        branches = [["cat", [["lit", b, 0] for b in word]], ["cat", [["lit", b, 0] for b in wide_word]]]
+        if rng.chance(1, 3):
+            branches.append(["cat", [["lit", b, 0] for b in [rng.choice([0x78, 0x31]), rng.choice([0x78, 0x31])]]])
+        branches = rng.shuffle(branches)
+        tail = rng.choice([[["rep", ["lit", 0x63, 0], ["+"], True]], [["lit", 0x63, 0]], [["lit", 0x63, 0], ["lit", 0x64, 0]],
+                           [["rep", ["dot"], ["n,m", 0, 2], False], ["lit", 0x7A, 0]]])
+        node = ["cat", [["group", ["alt", branches]]] + tail]
+        mods = {"nocase": rng.chance(1, 3), "wide": True, "ascii": True, "fullword": False}
+        ci, da = False, rng.chance(1, 2)
+        retext = "/%s/%s" % (re_text(node), "s" if da else "")
+        modtext = "".join(" " + m for m in ("nocase", "wide", "ascii", "fullword") if mods[m])
+        wb, ww = bytes(word), bytes(wide_word)
+        t_ascii = rng.choice([b"c", b"cc", b"cd", b"z", b"xz"])
+        members = [wb + t_ascii, ww + t_ascii, widen(wb + t_ascii), widen(ww + t_ascii)]
+        inputs = []
+        for i in range(4):
+            r = rng.fork("nf%d" % i)
+            parts = [r.bytes(r.range(0, 2), [0x2E, 0x20, 0x61, 0x00])]
+            kind = i if r.chance(1, 2) else r.below(4)
+            chosen = [members[kind]] if i < 3 else r.shuffle(members)[:r.range(2, 4)]
+            for m in chosen:
+                if mods["nocase"] and r.chance(1, 2):
+                    m = bytes(swapcase(x) for x in m)
+                parts += [m, r.bytes(r.range(0, 2), [0x2E, 0x20, 0x00])]
+            inputs.append(b"".join(parts)[:64].hex())
+        subjects = [(wb + t_ascii).hex(), (ww + t_ascii).hex()]
+        src = "rule r { strings: $a = %s%s condition: $a or true }\n" % (retext, modtext)
+        for i, sj in enumerate(subjects):
+            lit = "".join("\\x%02x" % b for b in bytes.fromhex(sj))
+            src += 'rule m%d { condition: "%s" matches %s }\n' % (i, lit, retext)
+        return {"node": node, "ci": ci, "da": da, "mods": mods, "src": src, "inputs": inputs, "subjects": subjects}
+
+    def gen_wide_boundary_family(self, rng):
+        """wide strings: a greedy (or lazy) repetition before a literal run, a word boundary only after the
+        run (or only before): the validators before / after the literal see different assertions."""
+        lit = [rng.choice([0x66, 0x6F, 0x62, 0x61, 0x72, 0x31]) for _ in range(rng.range(4, 6))]
+        head = ["rep", ["lit", rng.choice([0x61, 0x78]), 0], rng.choice([["+"], ["*"], ["n,m", 1, 3]]), not rng.chance(1, 3)]
+        asr = ["assert", rng.choice(["wb", "nwb"])]
+        body = [head] + [["lit", b, 0] for b in lit]
+        where = rng.below(3)
+        if where == 0:
+            body = body + [asr]
+        elif where == 1:
+            body = [asr] + body
+        else:
+            body = body + [asr, ["rep", ["class", ["perl", "w", rng.chance(1, 2)]], ["?"], True]]
+        node = ["cat", body]
+        mods = {"nocase": False, "wide": True, "ascii": rng.chance(1, 3), "fullword": False}
+        ci, da = rng.chance(1, 4), False
+        retext = "/%s/%s" % (re_text(node), "i" if ci else "")
+        modtext = "".join(" " + m for m in ("nocase", "wide", "ascii", "fullword") if mods[m])
+        h = head[1][1]
+        inputs = []
+        for i in range(4):
+            r = rng.fork("wb%d" % i)
+            parts = []
+            for _ in range(r.range(1, 2)):
+                m = bytes([h] * r.range(1, 3)) + bytes(lit)
+                pre = r.choice([b"", b" ", b"b", b"1"])
+                post = r.choice([b"", b"x", b" ", b"1", b".", b"xx"])
+                m = pre + m + post
+                if not mods["ascii"] or r.chance(2, 3):
+                    m = widen(m)
+                parts += [m, r.choice([b"", b"\x20\x00", b"z"])]
+            inputs.append(b"".join(parts)[:64].hex())
+        subjects = [(bytes([h, h]) + bytes(lit) + b"x").hex(), (bytes([h]) + bytes(lit)).hex()]
+        src = "rule r { strings: $a = %s%s condition: $a or true }\n" % (retext, modtext)
+        for i, sj in enumerate(subjects):
+            litx = "".join("\\x%02x" % b for b in bytes.fromhex(sj))
+            src += 'rule m%d { condition: "%s" matches %s }\n' % (i, litx, retext)
+        return {"node": node, "ci": ci, "da": da, "mods": mods, "src": src, "inputs": inputs, "subjects": subjects}
+
     def gen_case(self, rng):
+        if rng.chance(1, 14):
+            return self.gen_wide_boundary_family(rng)
         if rng.chance(1, 12):
             return self.gen_branch_family(rng)
+        if rng.chance(1, 14):
+            return self.gen_nul_family(rng)
         mods = {"nocase": rng.chance(1, 4), "wide": rng.chance(1, 4), "ascii": False, "fullword": rng.chance(1, 5)}
         if mods["wide"]:
             mods["ascii"] = rng.chance(1, 2)
